@@ -3,14 +3,73 @@
    property's executable form on the implementation's own outputs.
    case = ((service instance) (id svc inst backend str parsed_ok parsed)) *)
 From Coq Require Import ZArith List Bool.
-From FV Require Import Lib.Sx Lib.Hex C20.Model.
+From FV Require Import Lib.Sx Lib.Hex C20.Model C20.IdSet.
 Import ListNotations.
 Open Scope Z_scope.
 
 Definition zlist_eqb := list_eqb Z.eqb.
 
+(* ---- NodeIDSet (collections.OrderedIDSet) histories:
+   case = (((op id) ...)) ((slice result) ...)   op: 0 Insert, 1 Delete, 2 Has, 3 Find;
+   result: Has 0/1, Find index, otherwise -1.  Mismatch codes 11 (slice) 12 (result);
+   property codes 11 (not strictly sorted), 12 (membership differs from the set of ids
+   inserted and not deleted), 13 (Has), 14 (Find is not the number of smaller elements) *)
+Fixpoint strictly_sorted (l : list Z) : bool :=
+  match l with
+  | x :: ((y :: _) as r) => (x <? y) && strictly_sorted r
+  | _ => true
+  end.
+
+Definition mem (x : Z) (l : list Z) : bool := existsb (Z.eqb x) l.
+
+(* reference set: ids inserted and not deleted, as an unordered duplicate-free list *)
+Definition ref_step (set : list Z) (code id : Z) : list Z :=
+  if code =? 0 then (if mem id set then set else id :: set)
+  else if code =? 1 then filter (fun y => negb (y =? id)) set
+  else set.
+
+Definition same_members (ids set slice : list Z) : bool :=
+  forallb (fun x => Bool.eqb (mem x set) (mem x slice)) ids && (Nat.eqb (length set) (length slice)).
+
+Fixpoint idset_walk (ids : list Z) (m : list Z) (set : list Z) (ops : list (Z * Z)) (obs : list (list Z * Z)) : verdict :=
+  match ops, obs with
+  | [], [] => VOk
+  | (code, id) :: ops', (slice, res) :: obs' =>
+      let m1 := if code =? 0 then IdSet.insert id m else if code =? 1 then IdSet.delete id m else m in
+      let mres := if code =? 2 then (if IdSet.has id m then 1 else 0)
+                  else if code =? 3 then Z.of_nat (IdSet.find id m) else -1 in
+      let set1 := ref_step set code id in
+      let v :=
+        vjoin (check_that (strictly_sorted slice) (VPropFail 11))
+       (vjoin (check_that (same_members ids set1 slice) (VPropFail 12))
+       (vjoin (check_that (if code =? 2 then res =? (if mem id set then 1 else 0) else true) (VPropFail 13))
+       (vjoin (check_that (if code =? 3 then res =? Z.of_nat (length (filter (fun y => y <? id) slice)) else true) (VPropFail 14))
+       (vjoin (check_that (list_eqb Z.eqb m1 slice) (VMismatch 11))
+              (check_that (mres =? res) (VMismatch 12)))))) in
+      match v with
+      | VOk => idset_walk ids m1 set1 ops' obs'
+      | _ => v
+      end
+  | _, _ => VBad
+  end.
+
+Definition dec_pair (s : sx) : option (Z * Z) :=
+  match s with SList [SInt a; SInt b] => Some (a, b) | _ => None end.
+Definition dec_obs (s : sx) : option (list Z * Z) :=
+  match s with
+  | SList [l; SInt r] => match sx_ints l with Some l' => Some (l', r) | None => None end
+  | _ => None
+  end.
+
+Definition check_idset (ops obs : list sx) : verdict :=
+  match map_opt dec_pair ops, map_opt dec_obs obs with
+  | Some ops', Some obs' => idset_walk (map snd ops') [] [] ops' obs'
+  | _, _ => VBad
+  end.
+
 Definition check (c : sx) : verdict :=
   match c with
+  | SList [SList [SList ops]; SList obs] => check_idset ops obs
   | SList [SList [SInt s; SInt i];
            SList [SInt id; SInt svc; SInt inst; SInt backend; SBytes str;
                   SInt parsed_ok; SInt parsed]] =>
